@@ -136,6 +136,8 @@ def run_case(case, rng):
             pass
 
         def end_of_timestep(self, lv):
+            if state.get("warmup"):
+                return
             s, a, r, ns = lv["s"], lv["a"], lv["r"], lv["ns"]
             state["steps"] += 1
             state["ep_steps"] += 1
@@ -192,6 +194,8 @@ def run_case(case, rng):
             compare_tables(q, sh1, "q")
 
         def end_of_episode(self, lv):
+            if state.get("warmup"):
+                return
             state["episodes"] += 1
             state["ep_steps"] = 0
             case.count("episodes_observed")
@@ -202,6 +206,19 @@ def run_case(case, rng):
     cls = getattr(td, learner_name)
     learner = cls(episodes=episodes, step_size=alpha, rand_choose=eps, softmax_temp=temp, initial_q=initial_q,
                   seed=seed, event_listener_class=Probe)
+    if rng.random() < 0.2 and not near_tie:
+        # the same learner object is first trained on a sibling problem (one more absorbing state)
+        import copy
+        sib = copy.deepcopy(sp)
+        extra = [s for s in sib.states if s not in sib.flag and s not in init_support]
+        if extra:
+            sib.flag = set(sib.flag) | {rng.choice(extra)}
+            state["warmup"] = True
+            case.call(f"{learner_name}.train_on(sibling)", learner.train_on, Bd.build(sib, "subclass"), facts=facts)
+            sh1.clear()
+            sh2.clear()
+            state.update(prev_ns=None, steps=0, episodes=0, ep_steps=0, warmup=False)
+            case.count("learner_reused")
     res = case.call(f"{learner_name}.train_on", learner.train_on, mdp, facts=facts)
     if res is case.FAIL:
         return
